@@ -1039,8 +1039,10 @@ func (in *Instance) Serve(jar *Jar, browser, method, path string, form map[strin
 // Tick lets d whole ticks pass, Advance n units.
 func (in *Instance) Tick(d int) { in.Advance(G * d) }
 
-func (in *Instance) Advance(units int) {
-	dur := time.Duration(units) * (Unit / G)
+func (in *Instance) Advance(units int) { in.AdvanceDur(time.Duration(units) * (Unit / G)) }
+
+// AdvanceDur ages every stored instant by dur (negative: makes them younger).
+func (in *Instance) AdvanceDur(dur time.Duration) {
 	in.Store.ShiftTime(dur)
 	for _, b := range in.Sess.browsers() {
 		m := in.Sess.Get(b)
